@@ -292,6 +292,35 @@ def init_loops(f):
                             if not init_l.is_const() or init_l.c != 0:
                                 continue
                             res.append(InitLoop(f, L["header"], base, n, s, s.ops[0]))
+                # the slot base[i] is written through a cursor that starts at it:  p = &base[i]; while (..) { *p = ..; p = &..; }  *p = ..;
+                # every position of the cursor is stored through before the cursor advances (body) or dies (exit), so its first one, base[i], is too
+                if not is_ptr and stride == 1 and init_l.is_const() and init_l.c == 0:
+                    for bn in body:
+                        for g in f.bmap[bn].insts:
+                            if g.op != "getelementptr" or len(g.d["path"]) != 1 or "ptr" not in g.d["path"][0] or _strip_ext(f, g.d["path"][0]["ptr"]) != x:
+                                continue
+                            for P in f.uses().get(g.id, []):
+                                if P.op != "phi" or P.block.name not in body:
+                                    continue
+                                inner = [L2 for L2 in f.loops() if L2["header"] == P.block.name and L2["body"] < body]
+                                if len(inner) != 1:
+                                    continue
+                                L2 = inner[0]
+                                if [iv for (iv, pb) in P.d["incoming"] if pb not in L2["body"]] != [{"k": "i", "v": g.id}]:
+                                    continue
+                                if not all(f.dominates(P.block.name, la) for la in L["latches"]):
+                                    continue
+                                steps2 = [f.inst(_strip_ext(f, iv)) for (iv, pb) in P.d["incoming"] if pb in L2["body"]]
+                                through = [s_ for s_ in f.all_insts() if s_.op == "store" and s_.ops[1] == {"k": "i", "v": P.id}]
+                                in_body = [s_ for s_ in through if s_.block.name in L2["body"] and all(f.dominates(s_.block.name, la) for la in L2["latches"])]
+                                exits2 = set(t_ for b2 in L2["body"] for t_ in f.bmap[b2].succs if t_ not in L2["body"])
+                                at_exit = [s_ for s_ in through if s_.block.name in exits2]
+                                if in_body and len(exits2) == 1 and at_exit and all(st is not None for st in steps2):
+                                    base = lin(f, g.d["base"])
+                                    n = bound.add(init_l, -1)
+                                    if pr in ("sle", "ule"):
+                                        n = n.add(Lin(1))
+                                    res.append(InitLoop(f, L["header"], base, n, at_exit[0], at_exit[0].ops[0]))
     return res
 
 
